@@ -48,11 +48,6 @@ theorem nodeItem_uf (st : Static) (d : Defs) (n : AstNode) (k : Nat) : nodeItem 
 
 def ufPs (ps : PassSt) : PassSt := { ps with defs := ps.defs.unfreeze }
 
-/-- the symbol context after a node -/
-def stepCtx (st : Static) (sc : List String) : AstNode → List String
-  | .symbol _ _ _ _ (some r) => (st.decls.symbols.decls.getD r default).ctx
-  | _ => sc
-
 theorem passNode_eq' (st : Static) (first last : Bool) (ps : PassSt) (n : AstNode) (k : Nat) :
     passNode st first last ps n k =
       (match visit ps.defs.banks ps.it (nodeItem st ps.defs n k) with
@@ -182,8 +177,6 @@ theorem go_uf (st : Static) (last : Bool) (n : AstNode) :
       cases f with
       | zero => rw [c3 rfl, hsc1]
       | succ g => rw [c2 (Nat.succ_pos g), hsc1, stepCtx_idem]
-
-def ctxAfter (st : Static) (sc : List String) (pre : List AstNode) : List String := pre.foldl (stepCtx st) sc
 
 /-- every marked item recomputes to its stored value, in any non-first context with the symbol
     context of its node -/
